@@ -341,6 +341,15 @@ WAIT_PLAIN_SPEC: dict = {
     "externals": [{"op": "send", "ty": 3, "k": 2, "after_work_ticks": 4}],
     "det_uids": True}
 EDGE_SPECS += [("wait_req", WAIT_REQ_SPEC), ("wait_plain", WAIT_PLAIN_SPEC)]
+# a fan-out of three content-identical events (Work() x 3): consecutive ticks that serialise identically are still
+# three accepted events, each of which must survive the restart (seeded change C13-b de-duplicated equal consecutive ticks)
+IDENTICAL_FANOUT_SPEC: dict = {
+    "steps": [{"name": "s00", "accepts": [0], "nw": 1, "retry": None,
+               "script": [["send", 5, None, 1], ["send", 5, None, 1], ["send", 5, None, 1], ["ret", "none"]]},
+              {"name": "s02", "accepts": [5], "nw": 3, "retry": None, "script": [["gate"], ["ret", "6"]]},
+              {"name": "s03", "accepts": [6], "nw": 1, "retry": None, "script": [["collect", [6, 6, 6]], ["ret", "stop", "collected"]]}],
+    "externals": [], "det_uids": True, "same_uid_sends": True}
+EDGE_SPECS += [("identical_fanout", IDENTICAL_FANOUT_SPEC)]
 
 
 def wait_spec(rng: random.Random) -> dict:
